@@ -137,7 +137,7 @@ impl LocalStats {
             self.class_hist[i] += 1;
             c &= c - 1;
         }
-        if let Some(v) = &run.violation {
+        if let Some(v) = run.violation.as_ref().or(run.other.as_ref()) {
             if !v.is(prop) {
                 self.aborted_other += 1;
                 if self.aborted_example.is_none() {
